@@ -95,6 +95,10 @@ class MicroDVDWriter(BaseWriter):
         for caption in captions:
             start = self._microtoframes(caption.start)
             end = self._microtoframes(caption.end)
+            if start == 0 and end == 0:
+                # "{0}{0}" declares the frame rate; a caption that lies
+                # inside the first frame is shown for that frame
+                end = 1
             sub += f'{{{start}}}{{{end}}}'
 
             new_content = ''
